@@ -190,6 +190,29 @@ def run_framing(case):
         if got != want:
             kind = 'partial-delivered' if len(got) > len(want) else 'lost' if len(got) < len(want) else 'altered'
             r.bad(f'C06/framing/{kind}', f'got {[(t, len(b)) for t, b in got][:8]} want {[(t, len(b)) for t, b in want][:8]} cuts={cuts[:8]}')
+        if case.get('reopen') is not None and not r.violations:
+            # the SAME face object is opened again (the application reconnects after the stream ended - possibly in the middle of a
+            # packet): the new connection starts on a packet boundary, nothing of the old stream belongs to it
+            got.clear()
+            vl.run(setup())
+            vl.settle()
+            second = (pkts[:3] if pkts and sum(len(p) for p in pkts[:3]) < 5000 else []) or [b'\x05\x03\x07\x01\x00', b'\x06\x00']
+            data = b''.join(second)
+            cut = case['reopen'] % (len(data) + 1)
+            for chunk in (data[:cut], data[cut:]):
+                if chunk:
+                    vl.call(face.reader.feed_data, chunk)
+                    vl.settle()
+            vl.call(face.reader.feed_eof)
+            vl.settle()
+            vl.advance(0.01)
+            want2 = [(T.read_num(p, 0, len(p))[0], p) for p in second]
+            t2 = holder['task']
+            if t2.done() and t2.exception() is not None:
+                r.bad(f'C06/framing/reopened/run-raised/{type(t2.exception()).__name__}', repr(t2.exception()))
+            elif got != want2:
+                r.bad('C06/framing/reopened/wrong-packets', f'second connection of the same face object: got {[(t, b.hex()[:24]) for t, b in got][:6]} '
+                      f'want {[(t, b.hex()[:24]) for t, b in want2][:6]}; first stream ended with tail={tail.hex()}')
         errs = vl.collect_errors()
         if errs:
             r.bad(f'C06/framing/unhandled-loop-error/{errs[0]["type"]}', str(errs[:2]))
@@ -239,7 +262,8 @@ def _framing_case(draw):
             cuts.append(off + draw(st.integers(1, 5)))
         off += len(_pkt_bytes(p))
     burst = draw(st.sampled_from([0] * 9 + [257, 300, 520, 1100, 2100]))
-    return {'pkts': pkts, 'tail': tail.hex(), 'cuts': cuts, 'eof_now': draw(st.integers(0, 3)) == 0, 'burst': burst}
+    return {'pkts': pkts, 'tail': tail.hex(), 'cuts': cuts, 'eof_now': draw(st.integers(0, 3)) == 0, 'burst': burst,
+            'reopen': draw(st.one_of(st.none(), st.none(), st.integers(0, 40)))}
 
 
 def _framing_enum(tier):
@@ -258,6 +282,8 @@ def _framing_enum(tier):
         n = sum(len(T.enc_num(t)) + len(T.enc_num(ln)) + ln for t, ln, _ in s['pkts']) + len(s['tail']) // 2
         yield dict(s, cuts=[])
         yield dict(s, cuts=[], eof_now=True)
+        yield dict(s, cuts=[], reopen=0)
+        yield dict(s, cuts=[3], reopen=2)
         for c in range(1, n):
             yield dict(s, cuts=[c])
             yield dict(s, cuts=[c, c + 1])
